@@ -58,7 +58,15 @@ const (
 	rOK        reply = "ok"
 )
 
-func rv(b []byte) reply  { return reply("v:" + string(b)) }
+// rv is the reply "this value". A command that returns ([]byte, error) answers (nil, nil) both for "nothing there" and
+// for an empty value (the engine hands out nil for a zero-length value), so at the API an empty value and an absent
+// one are the same reply - for the model as for the engine (nil == empty, as everywhere in this harness).
+func rv(b []byte) reply {
+	if len(b) == 0 {
+		return rAbsent
+	}
+	return reply("v:" + string(b))
+}
 func rb(b bool) reply    { return reply(fmt.Sprintf("b:%v", b)) }
 func rn(n uint32) reply  { return reply(fmt.Sprintf("n:%d", n)) }
 func rf(f float64) reply { return reply(fmt.Sprintf("f:%v", f)) }
@@ -562,6 +570,9 @@ func genDT(c *Case, rng *vrt.Rand, tier string) func(r *Runner, i int) *Op {
 		op.F2 = fields[rng.Intn(nf)]
 		tag++
 		op.Val = &Val{Len: rng.Range(1, 24), Tag: tag}
+		if rng.Chance(0.06) {
+			op.Val.Len = 0 // an empty string value, hash value or list element (seeded change S109)
+		}
 		switch op.K {
 		case "set":
 			if rng.Chance(0.6) {
